@@ -31,6 +31,8 @@ func (p *FloatingIPPlugin) Preempt(args *schedulerapi.ExtenderPreemptionArgs) ma
 	if policy == constant.ReleasePolicyPodDelete {
 		return args.NodeNameToMetaVictims
 	}
+	// getSubnet may allocate an ip for the pod, hold the pod's lock like Filter does
+	defer p.lockPod(args.Pod.Name, args.Pod.Namespace)()
 	subnetSet, err := p.getSubnet(args.Pod)
 	if err != nil {
 		glog.Errorf("unable to get pod subnets: %v", err)
